@@ -29,7 +29,7 @@ func LoadCanonical(cfg LoadConfig) (*Program, error) {
 	}
 	overlay, names := methodise(p, cfg.Overlay)
 	if len(names) == 0 {
-		return p, nil
+		return withSetters(p, cfg), nil
 	}
 	cfg2 := cfg
 	cfg2.Overlay = map[string][]byte{}
@@ -50,7 +50,33 @@ func LoadCanonical(cfg LoadConfig) (*Program, error) {
 	if os.Getenv("ARK_DEBUG_CANON") != "" {
 		fmt.Fprintln(os.Stderr, "canonicalised into methods:", names)
 	}
-	return p2, nil
+	return withSetters(p2, cfg2), nil
+}
+
+// withSetters applies the second canonicalisation (canon_setters.go) on top of program p loaded with cfg; p itself is
+// returned when there is nothing to rewrite or the rewritten program does not load.
+func withSetters(p *Program, cfg LoadConfig) *Program {
+	overlay, names := inlineSetters(p, cfg.Overlay)
+	if len(names) == 0 {
+		return p
+	}
+	cfg3 := cfg
+	cfg3.Overlay = map[string][]byte{}
+	for k, v := range cfg.Overlay {
+		cfg3.Overlay[k] = v
+	}
+	for k, v := range overlay {
+		cfg3.Overlay[k] = v
+	}
+	p3, err := Load(cfg3)
+	if err != nil {
+		if os.Getenv("ARK_DEBUG_CANON") != "" {
+			fmt.Fprintln(os.Stderr, "setter canonicalisation abandoned:", err)
+		}
+		return p
+	}
+	p3.Methodised = append(append([]string{}, p.Methodised...), names...)
+	return p3
 }
 
 type textEdit struct {
